@@ -48,7 +48,8 @@ func Verif_C08_work_json() {
 	cfg := map[string]interface{}{"command": "work", "subcommand": sub}
 	switch verifapi.Choose(4) {
 	case 0:
-		cfg["unitid"] = []string{"unit0013", "unit0014", "nope", "..", ".", "", "../precious", "unit0013/status", "a/b"}[verifapi.Choose(9)]
+		cfg["unitid"] = []string{"unit0013", "unit0014", "nope", "..", ".", "", "../precious", "unit0013/status", "a/b",
+			"unit0013/status/x", "unit0013/stdout/..", string(make([]byte, 256))}[verifapi.Choose(12)]
 	case 1:
 		if v, ok := verifAnyJSONValue(1 + verifapi.Choose(6)); ok {
 			cfg["unitid"] = v
